@@ -460,10 +460,63 @@ def block_anomaly(rng, fmt):
     return (nl.join(out) + nl).encode("latin-1")
 
 
+def seqcount_boundary(rng, fmt="stockholm"):
+    """VALID multi-block Stockholm / SELEX files whose number of SEQUENCES sits on the doubling of the growable MSA and of the per-sequence parse
+    data (16/17, 32/33, 64/65 names, first met in the header's #=GS lines or in the first block), with SPARSE per-sequence annotation (parsed and
+    unparsed #=GR tags / #=SS #=SA on the early sequences only, the late only, a random subset) that is already recorded when the arrays grow;
+    sometimes one anomaly in a later block (the malformed stream for the same bookkeeping)"""
+    n = rng.choice([15, 16, 17, 18, 31, 32, 33, 34, 63, 64, 65]); nblk = rng.choice([2, 2, 3]); w = rng.choice([1, 3, 7])
+    a = rand_aln(rng, rng.choice(["amino", "dna"]), n, w * nblk, gapchars="-", lower=False, maxname=8, namechars="abcdefghijklmnopqrstuvwxyz0123456789_")
+    col = lambda chars, k: "".join(rng.choice(chars) for _ in range(k))
+    def subset():
+        shape = rng.choice(["all", "first", "early", "late", "last", "half", "few"])
+        k = rng.choice([1, 8, 16])
+        return {"all": lambda i: True, "first": lambda i: i == 0, "early": lambda i: i < k, "late": lambda i: i >= 16, "last": lambda i: i == n - 1,
+                "half": lambda i: i % 2 == 0, "few": lambda i: i % 7 == 3}[shape]
+    if fmt == "selex":
+        per = [(t, subset()) for t in ("#=SS", "#=SA") if rng.random() < 0.6]
+        top = [t for t in ("#=RF", "#=CS") if rng.random() < 0.4]
+    else:
+        per = [(t, subset()) for t in rng.sample(["SS", "SA", "PP", "AS", "LI", "csa", "T1", "T2"], rng.choice([1, 1, 2, 3, 5]))]
+        top = [t for t in ("SS_cons", "RF", "XX", "YY") if rng.random() < 0.3]
+    blocks = []
+    for b in range(nblk):
+        ls = []
+        if fmt == "selex":
+            for t in top: ls.append((t, col("xX.", w)))
+        for i in range(n):
+            ls.append((a.names[i], a.rows[i][b * w:(b + 1) * w]))
+            for t, on in per:
+                if on(i): ls.append((("#=GR %s %s" % (a.names[i], t)) if fmt != "selex" else t, col("abc.", w)))
+        if fmt != "selex":
+            for t in top: ls.append(("#=GC " + t, col("xyz.", w)))
+        blocks.append(ls)
+    if rng.random() < 0.25:
+        ls = blocks[rng.randrange(1, nblk)]; an = rng.randrange(3)
+        if an == 0 and len(ls) > 1: del ls[rng.randrange(len(ls))]
+        elif an == 1: j = rng.randrange(len(ls)); ls.insert(j, ls[j])
+        else: ls.append(("#=GR %s NEW" % a.names[rng.randrange(n)] if fmt != "selex" else "#=SS", col("x.", w)))
+    wn = max(len(h) for bl in blocks for h, _ in bl) + 2
+    out = []
+    if fmt != "selex":
+        out.append("# STOCKHOLM 1.0")
+        r = rng.random()
+        if r < 0.25:                                    # every name declared in the header (all expansions happen before any #=GR line)
+            for i in range(n): out.append("#=GS %s WT %.2f" % (a.names[i], 1 + i / 10))
+        elif r < 0.45:                                  # some names declared in the header, in another order than the block's
+            for i in rng.sample(range(n), rng.choice([1, 2, n // 2])): out.append("#=GS %s DE text %d" % (a.names[i], i))
+    for bi, bl in enumerate(blocks):
+        if bi or fmt != "selex": out.append("")
+        for h, t in bl: out.append(h.ljust(wn) + t)
+    if fmt != "selex": out.append("//")
+    return ("\n".join(out) + "\n").encode("latin-1")
+
+
 def alloc_boundary(rng, fmt="stockholm"):
     """files that sit on the growth boundaries of the readers' arrays: blocks of exactly 16 / 32 lines (blinetype[]/bidx[] and
     ESL_SELEX_BLOCK of 16), 16 / 17 / 32 / 33 sequences (sqalloc doubling), 16+ / 32+ comment and #=GF lines, many distinct
     #=GS / #=GC / #=GR tags - optionally with ONE extra / missing line in a later block"""
+    if rng.random() < 0.45: return seqcount_boundary(rng, fmt)
     target = rng.choice([15, 16, 17, 31, 32, 33])          # lines per block
     ngc = rng.choice([0, 1, 2, 5]) if fmt != "selex" else rng.choice([0, 1, 2])
     ngr = rng.choice([0, 0, 1]) if fmt != "selex" else rng.choice([0, 1])
